@@ -171,8 +171,12 @@ def length_str(v):
 
 
 def ssc_text(tl):
+    exact_lengths = bool(tl.get("exact_lengths"))
+
     def lst(pairs, length=False):
-        return ",\n".join(f"{beat_str(b)}={length_str(v) if length else dec(v)}" for b, v in pairs)
+        # warp lengths are written with three decimals, as StepMania does (so most of them are *not* exact tick
+        # multiples in the text and get snapped on reading) - except in timelines that ask for all digits
+        return ",\n".join(f"{beat_str(b)}={(length_str(v) if exact_lengths else beat_str(v)) if length else dec(v)}" for b, v in pairs)
 
     return (
         "#VERSION:0.83;\n"
@@ -221,17 +225,23 @@ def query_beats(grid):
 
 
 def fmt_tl(tl):
-    return {
+    out = {
         k: ([[str(b), str(v)] for b, v in tl[k]] if k != "offset" else str(tl[k]))
         for k in ("bpms", "stops", "delays", "warps", "offset")
     }
+    if tl.get("exact_lengths"):
+        out["exact_lengths"] = True
+    return out
 
 
 def parse_tl(js):
-    return {
+    out = {
         k: ([(Fraction(b), Fraction(v)) for b, v in js[k]] if k != "offset" else Fraction(js[k]))
         for k in ("bpms", "stops", "delays", "warps", "offset")
     }
+    if js.get("exact_lengths"):
+        out["exact_lengths"] = True
+    return out
 
 
 def corpus_timelines():
@@ -292,8 +302,10 @@ def special_timelines(thorough=False):
         pts.update([F(-1), F(0)])
         return sorted(pts)
 
-    def add(label, bpms, stops=(), delays=(), warps=(), offset=F(0), extra=()):
+    def add(label, bpms, stops=(), delays=(), warps=(), offset=F(0), extra=(), exact_lengths=False):
         tl = {"bpms": list(bpms), "stops": list(stops), "delays": list(delays), "warps": list(warps), "offset": F(offset)}
+        if exact_lengths:
+            tl["exact_lengths"] = True
         out.append((label, tl, probes(tl, extra)))
 
     # 1. a crowd of events inside one warp: k BPM changes (alternating values) every half beat of a 4-beat warp,
@@ -322,8 +334,8 @@ def special_timelines(thorough=False):
     # 4. knife edges: warp lengths exactly half-way between two ticks (1.5, 4.5, 7.5 ticks: ties go to the even tick),
     #    BPM changes that differ only beyond double precision, scientific notation
     for ln in (F(1, 32), F(3, 32), F(5, 32)):
-        add(f"warp of {float(ln * 48)} ticks", [(F(0), F(120))], warps=[(F(0), ln)], extra=[F(k, 48) for k in range(0, 12)])
+        add(f"warp of {float(ln * 48)} ticks", [(F(0), F(120))], warps=[(F(0), ln)], extra=[F(k, 48) for k in range(0, 12)], exact_lengths=True)
         add(f"warp of {float(ln * 48)} ticks at beat 1 with a stop behind it", [(F(0), F(60))], stops=[(F(1) + F(round(ln * 48), 48), F(1, 2))], warps=[(F(1), ln)],
-            extra=[F(1) + F(k, 48) for k in range(0, 12)])
+            extra=[F(1) + F(k, 48) for k in range(0, 12)], exact_lengths=True)
     add("BPM changes that are equal as floats", [(F(0), F(120)), (F(4), F("120.00000000000000001")), (F(8), F("119.99999999999999999"))], extra=[F(3), F(4), F(5), F(8), F(9)])
     return out
